@@ -70,6 +70,9 @@ func ms(y int, m time.Month, d int) int64 {
 
 var farEpochs bool
 
+// longRun: length of the one very long run of calls in a single millisecond (0 = none)
+var longRun int
+
 // ms1: 1 January of a year as unix milliseconds (without going through nanoseconds)
 func ms1(y int) int64 { return time.Date(y, 1, 1, 0, 0, 0, 0, time.UTC).Unix() * 1000 }
 
@@ -350,9 +353,46 @@ type hardSeq struct {
 	lastID int64
 	has    bool
 	src    string
+	// env is set for histories that change the layout on the way; nodeEpoch is the epoch in force
+	// when the node in use was built
+	env       *hardEnv
+	nodeEpoch int64
 }
 
+// hardEnv is what the nodes of one history share: the layout in force and the epoch the clock hook
+// uses to turn the relative reading into an instant (the epoch of the node being called).
+type hardEnv struct {
+	hookEpoch int64
+	cur       layout
+	rng       *rand.Rand
+}
+
+// force makes l's epoch / node width / placement the layout in force (through the hook or Setup).
+func (e *hardEnv) force(l layout) {
+	if l.epoch == e.cur.epoch && l.nb == e.cur.nb && l.low == e.cur.low {
+		return
+	}
+	l.viaSetup = e.rng.Intn(2) == 0 && l.epoch > -nsLimitMs && l.epoch < nsLimitMs
+	l.install() // the history's first install restores the original at its end
+	e.cur = l
+}
+
+// use: before a node is called its own width and placement are (again) in force - another node of
+// the history may live under another layout - and the hook speaks the node's epoch.
+func (h *hardSeq) use() {
+	if h.env != nil {
+		h.env.force(h.l)
+		atomic.StoreInt64(&h.env.hookEpoch, h.nodeEpoch)
+	}
+}
+
+// reEpoch: the package's epoch is changed while the node lives on.  A node keeps the epoch it was
+// built under; nodes built from now on (restarts) use the new one.
+func (h *hardSeq) reEpoch(e int64) { h.l.epoch = e }
+
 func (h *hardSeq) start(seeded bool, min int64) {
+	h.nodeEpoch = h.l.epoch
+	h.use()
 	h.n = newHard(h.w, h.l, min, h.src)
 	h.has = seeded
 	h.lastID = min
@@ -360,6 +400,7 @@ func (h *hardSeq) start(seeded bool, min int64) {
 }
 
 func (h *hardSeq) gen(k int) {
+	h.use()
 	for i := 0; i < k; i++ {
 		now := atomic.LoadInt64(h.rel)
 		id, p := safeGen(h.n.Generate)
@@ -367,7 +408,7 @@ func (h *hardSeq) gen(k int) {
 			h.w.Emit(tr.E{"ev": "panic", "msg": p})
 			continue
 		}
-		h.w.Emit(tr.E{"ev": "gen", "now": limbs(now), "id": limbs(id), "nsovf": h.l.nsovf(now)})
+		h.w.Emit(tr.E{"ev": "gen", "now": limbs(now), "id": limbs(id), "nsovf": layout{epoch: h.nodeEpoch}.nsovf(now)})
 		h.lastID, h.has = id, true
 	}
 }
@@ -377,10 +418,11 @@ func (h *hardSeq) set(r int64) { atomic.StoreInt64(h.rel, clampRel(h.l, r)) }
 func runHardSeq(w sink, rng *rand.Rand, i int, nseg int, burst bool) {
 	l := pickLayout(rng, i)
 	defer l.install()()
-	h := &hardSeq{w: w, l: l, src: "hardseq", rel: new(int64)}
+	env := &hardEnv{cur: l, rng: rng}
+	h := &hardSeq{w: w, l: l, src: "hardseq", rel: new(int64), env: env}
 	h.set(pickBase(rng, l))
 	defer snowflake.VerifSetNow(func() time.Time {
-		return time.UnixMilli(l.epoch + atomic.LoadInt64(h.rel))
+		return time.UnixMilli(atomic.LoadInt64(&env.hookEpoch) + atomic.LoadInt64(h.rel))
 	})()
 	// first incarnation: fresh, or restarted with an id that this node could have issued
 	switch rng.Intn(4) {
@@ -389,9 +431,14 @@ func runHardSeq(w sink, rng *rand.Rand, i int, nseg int, burst bool) {
 	default:
 		h.start(true, fabricate(rng, l, atomic.LoadInt64(h.rel)))
 	}
+	if longRun > 0 && burst && i == 0 {
+		// one operation repeated across the 16-bit boundary within one millisecond
+		h.gen(longRun)
+	}
 	if burst {
 		// more than 4096 requests inside one millisecond, then the clock stalls / steps by one
-		h.gen(4097 + rng.Intn(300))
+		// (run lengths at and around the 4096 steps of a millisecond and their multiples)
+		h.gen([]int{4095, 4096, 4097, 4098, 8191, 8192, 8193, 4097 + rng.Intn(300)}[(i+int(rng.Int63n(8)))%8])
 		h.set(*h.rel + int64(rng.Intn(3)))
 		h.gen(3)
 		nseg = 6
@@ -409,7 +456,7 @@ func runHardSeq(w sink, rng *rand.Rand, i int, nseg int, burst bool) {
 		case x < 70: // somewhere else entirely
 			h.set(pickBase(rng, l))
 			h.gen(1 + rng.Intn(3))
-		case x < 85: // restart with the last id issued
+		case x < 85: // restart with the last id issued (possibly under an epoch installed meanwhile)
 			if h.has {
 				h.start(true, h.lastID)
 				h.gen(1 + rng.Intn(3))
@@ -417,11 +464,14 @@ func runHardSeq(w sink, rng *rand.Rand, i int, nseg int, burst bool) {
 		case x < 93: // restart with an id near a step wrap
 			h.start(true, fabricate(rng, l, atomic.LoadInt64(h.rel)))
 			h.gen(1 + rng.Intn(6))
-		default: // the clock jumps back while the step counter is about to wrap
+		case x < 96: // the clock jumps back while the step counter is about to wrap
 			if h.has {
 				h.set(*h.rel - int64(rng.Intn(3)))
 				h.gen(2)
 			}
+		default: // the package is given another epoch while the node lives on (and is later restarted)
+			h.reEpoch(pickLayout(rng, rng.Intn(6)).epoch)
+			h.gen(1 + rng.Intn(3))
 		}
 	}
 }
@@ -437,11 +487,33 @@ func runHardPair(w sink, rng *rand.Rand, i int, nseg int) {
 	la, lb := l, l
 	max := int64(1)<<l.nb - 1
 	lb.node = (l.node + 1 + rng.Int63n(max)) % (max + 1)
+	if rng.Intn(2) == 0 {
+		// the second node lives under another layout (epoch and/or width and/or placement): the
+		// caller installs a node's layout before it turns to that node - A, B, A, ...
+		lb = pickLayout(rng, rng.Intn(6))
+		if rng.Intn(3) == 0 {
+			lb.nb, lb.low = l.nb, l.low
+		}
+	}
+	env := &hardEnv{cur: l, rng: rng}
 	ba, bb := &bufSink{}, &bufSink{}
-	hs := []*hardSeq{{w: ba, l: la, src: "hardpair", rel: rel}, {w: bb, l: lb, src: "hardpair", rel: rel}}
-	hs[0].set(pickBase(rng, l))
+	hs := []*hardSeq{{w: ba, l: la, src: "hardpair", rel: rel, env: env}, {w: bb, l: lb, src: "hardpair", rel: rel, env: env}}
+	// one clock for both: readings every layout of the pair can express
+	base := pickBase(rng, l)
+	if lim := int64(1)<<lb.tsBits() - 1 - margin; base > lim {
+		base = lim
+	}
+	if lim := int64(1)<<la.tsBits() - 1 - margin; base > lim {
+		base = lim
+	}
+	narrow := la
+	if lb.nb > la.nb {
+		narrow = lb
+	}
+	setRel := func(r int64) { atomic.StoreInt64(rel, clampRel(narrow, r)) }
+	setRel(base)
 	defer snowflake.VerifSetNow(func() time.Time {
-		return time.UnixMilli(l.epoch + atomic.LoadInt64(rel))
+		return time.UnixMilli(atomic.LoadInt64(&env.hookEpoch) + atomic.LoadInt64(rel))
 	})()
 	defer func() { // whatever happens, what was recorded is written
 		for _, b := range []*bufSink{ba, bb} {
@@ -463,10 +535,10 @@ func runHardPair(w sink, rng *rand.Rand, i int, nseg int) {
 		case x < 45:
 			h.gen(1 + rng.Intn(3))
 		case x < 60:
-			h.set(*h.rel + []int64{1, 1, 2, 1000}[rng.Intn(4)])
+			setRel(*h.rel + []int64{1, 1, 2, 1000}[rng.Intn(4)])
 			h.gen(1)
 		case x < 75:
-			h.set(*h.rel - []int64{1, 2, 50, 100000}[rng.Intn(4)])
+			setRel(*h.rel - []int64{1, 2, 50, 100000}[rng.Intn(4)])
 			h.gen(1 + rng.Intn(2))
 		case x < 85: // alternate strictly
 			for k := 0; k < 4; k++ {
@@ -543,9 +615,14 @@ func runNanoSeq(w sink, rng *rand.Rand, i int, calls int) {
 	cur := bases[rng.Intn(len(bases))]
 	var g nanoGen
 	src := "nanoseq"
-	if i%2 == 0 {
+	switch {
+	case i%8 == 6: // the zero value of the exported type, never constructed
+		g, cur, src = &nano.UnixNanoID{}, 0, "nanoseq-zero"
+	case i%8 == 7:
+		g, cur, src = &nano.UnixNanoNoLockID{}, 0, "nanoseq-nolock-zero"
+	case i%2 == 0:
 		g = nano.NewUnixNanoID(cur)
-	} else {
+	default:
 		g = nano.NewUnixNanoNoLockID(cur)
 		src = "nanoseq-nolock"
 	}
@@ -1055,6 +1132,7 @@ func main() {
 	nbad := flag.Int("bad", 16, "constructor calls with node numbers at and beyond the node width")
 	ncold := flag.Int("cold", 250, "cold-start rounds to keep (rounds whose calls overlapped)")
 	coldMs := flag.Int("coldms", 2500, "time budget for finding them, ms")
+	flag.IntVar(&longRun, "longrun", 0, "one run of this many calls in one millisecond (65537 crosses the 16-bit boundary)")
 	flag.BoolVar(&farEpochs, "farepochs", false, "also use epochs outside 1678..2262")
 	perG := flag.Int("perg", 200, "logged calls per goroutine in free-running histories")
 	flag.Parse()
